@@ -258,6 +258,11 @@ def flatten_layouts(fnode, data):
             if isinstance(st, ast.Assign):
                 v = lay(st.value)
                 for t in st.targets:
+                    # data[<mask>.reshape(data.shape)] = nan: the index
+                    # expression may hold the reshape
+                    if isinstance(t, ast.Subscript):
+                        lay(t.slice)
+                for t in st.targets:
                     if isinstance(t, ast.Subscript) and \
                             isinstance(t.slice, ast.Slice) and \
                             isinstance(t.value, ast.Name):
